@@ -9,7 +9,7 @@ C08 (symbolic Unicode); walkers C11; builders C04; the filter's predicates C13.
 import warnings
 warnings.simplefilter("ignore")
 from harness.common import P
-from harness.parsecommon import pick, untraced, norm_dom, norm_et
+from harness.parsecommon import pick, untraced, norm_dom, norm_et, builder
 from html5lib import serializer, treewalkers
 import html5lib
 from engine import findings
@@ -51,16 +51,19 @@ def _doc(wi, a, b, si, hi, tail):
 
 def _trees(doc, walker_dom, opts):
     kind = "dom" if walker_dom else "etree"
-    t1 = html5lib.parse(doc, treebuilder=kind)
+    # full document trees (doctype included): the etree builder's default root-element form drops the doctype
+    tb = builder("dom" if walker_dom else "etree-full")
+    t1 = html5lib.HTMLParser(tree=tb).parse(doc)
     s = serializer.HTMLSerializer(**opts)
     out = s.render(treewalkers.getTreeWalker(kind)(t1))
-    t2 = html5lib.parse(out, treebuilder=kind)
+    t2 = html5lib.HTMLParser(tree=tb).parse(out)
     n = norm_dom if walker_dom else norm_et
     return n(t1), n(t2), out, s.errors
 
 def omission(wi: int, a: int, b: int, si: int, hi: int, tail: int, walker_dom: bool) -> bool:
     """
     pre: wi == WI and 0 <= a < NITEMS and 0 <= b < NITEMS and 0 <= si < len(SEPS) and 0 <= hi < P("nheads", len(HEADS)) and 0 <= tail <= 3
+    pre: (P("wdom", None) is None or walker_dom == P("wdom", None)) and (P("tails", None) is None or tail in P("tails", None))
     post: _
     """
     wi = WI
